@@ -737,6 +737,23 @@ class MappingH5Only(Mapping):
     want_csv = False
 
 
+class MappingMany(Mapping):
+    """81-85 query cells and a `chunk_size` far above them: the configured
+    `n_processors` alone decides the row chunks
+    (`ceil(n_rows / n_processors)`); the cell counts are chosen so that 16 and
+    17 processes give different chunks"""
+    name = 'mappingMany'
+    chunk_size = 1000
+
+    def __init__(self, prob, d):
+        import random
+        r = random.Random(prob.seed)
+        own = RefProblem(r, n_leaves=5, n_query=r.choice([81, 82, 83, 84, 85]))
+        sub = pathlib.Path(d) / 'many'
+        sub.mkdir(exist_ok=True)
+        super().__init__(own, sub)
+
+
 class MappingWide(Mapping):
     """the mapping on a `RefProblem(wide=True)`: >= 32 cells per chunk spread
     over >= 3 sibling parents per level, bootstrap factor 0.7, 10 iterations
@@ -777,6 +794,9 @@ class StatsFromColumns(Stats):
 
 #: fixtures that only the hash-seed runs use (on a wide problem)
 HASHSEED_EXTRA = {c.name: c for c in (MappingWide, StatsFromColumns)}
+
+#: fixture of the host-independence runs (C04)
+HOST_FIXTURE = MappingMany
 
 STAGES = {c.name: c for c in (Mapping, MappingCsvOnly, MappingLogOnly,
                               MappingJsonOnly, MappingH5Only, Stats,
